@@ -77,14 +77,34 @@ theorem compress_zero (y : F) : C.compress (C.encXY (0, y)) = (.ok, zeros C.no) 
   simp only
   rw [if_pos ((L.isZero_iff 0).2 rfl)]
 
-theorem compress_nz {x : F} (hx : x ≠ 0) (y : F) :
+theorem isZero_add_one (x : F) : C.f.isZero (x + 1) = true ↔ x = 1 := by
+  rw [L.isZero_iff]
+  constructor
+  · intro h; linear_combination h - L.char2 1
+  · intro h; rw [h]; exact L.char2 1
+
+/-- the point (1, y) with tr(y) = 0 is refused -/
+theorem compress_one_refused {y : F} (hy : C.f.tr y = false) :
+    C.compress (C.encXY (1, y)) = (.badPoint, []) := by
+  unfold Dstu.compress
+  rw [loadXY_encXY C L]
+  simp only
+  rw [(isZero_false_iff L 1).2 one_ne_zero]
+  simp only [Bool.false_eq_true, if_false, L.div_eq, L.add_eq, L.one_eq, div_one, hy,
+    (isZero_add_one C L 1).2 rfl, Bool.not_false, Bool.and_self, if_true]
+
+theorem compress_nz {x : F} (hx : x ≠ 0) (y : F) (hx1 : x = 1 → C.f.tr (y / x) = true) :
     C.compress (C.encXY (x, y)) =
       (.ok, C.encF (if C.f.tr (y / x) then C.f.clearLow x + 1 else C.f.clearLow x)) := by
+  have hcond : (C.f.isZero (x + 1) && !C.f.tr (y / x)) = false := by
+    cases h : C.f.isZero (x + 1)
+    · rfl
+    · rw [hx1 ((isZero_add_one C L x).1 h)]; rfl
   unfold Dstu.compress
   rw [loadXY_encXY C L]
   simp only
   rw [(isZero_false_iff L x).2 hx]
-  simp only [Bool.false_eq_true, if_false, L.div_eq, L.add_eq, L.one_eq]
+  simp only [Bool.false_eq_true, if_false, L.div_eq, L.add_eq, L.one_eq, hcond]
 
 omit [Field F] L in
 theorem recover_none {xp : Bytes} (h : C.f.ofNat (leNat xp) = none) :
@@ -175,6 +195,71 @@ theorem xfix_clearLow {x : F} (ht : C.f.tr x = C.A) {x' : F} (h : C.f.clearLow x
   · rw [e, ht]; simp
   · rw [e, tr_add_one L, ht, add_one_add_one L]
     cases C.A <;> simp
+
+/-- Recover ∘ Compress = id, the point (1, y) with tr(y) = 0 set aside -/
+theorem recover_compress_aux (x y : F)
+    (hc : y * y + x * y = x * x * x + (if C.A then x * x else 0) + C.B)
+    (htr : x = 0 ∨ C.f.tr x = C.A)
+    (hx1 : x = 1 → C.f.tr y = true) :
+    ∃ xp, C.compress (C.encXY (x, y)) = (.ok, xp) ∧ xp.length = C.no ∧
+      C.recover xp = (.ok, C.encXY (x, y)) := by
+  by_cases hx : x = 0
+  · subst hx
+    refine ⟨_, compress_zero C L y, Pf.zeros_length _, ?_⟩
+    rw [recover_zero C L (decode_zeros C L _)]
+    have hB : C.B = y * y := by
+      have : y * y = C.B := by
+        rw [← sub_eq_zero]
+        have h := hc
+        simp only [zero_mul, mul_zero, ite_self, add_zero, zero_add] at h
+        linear_combination h
+      exact this.symm
+    rw [hB, sqrtF_mul_self L]
+  · have ht : C.f.tr x = C.A := htr.resolve_left hx
+    have hx1' : x = 1 → C.f.tr (y / x) = true := by
+      intro h1; rw [h1, div_one]; exact hx1 h1
+    obtain ⟨hs0, hslow, hsclr⟩ := stored_props C L hx (C.f.tr (y / x)) hx1'
+    refine ⟨_, compress_nz C L hx y hx1', encF_length C _, ?_⟩
+    rw [recover_nz C L (decode_encF C L _) hs0, xfix_clearLow C L ht hsclr, hslow]
+    obtain ⟨z, hz, hzw⟩ := qsolve_one L (curve_w C hx hc)
+    rw [hz]
+    simp only
+    have hy : ysel C x z (C.f.tr (y / x)) = y := by
+      unfold ysel
+      have hxx : x * (y / x) = y := by field_simp
+      rcases hzw with e | e
+      · rw [e, beq_self_eq_true, if_pos rfl]
+        exact hxx
+      · rw [e, tr_add_one L]
+        have : ((!C.f.tr (y / x)) == C.f.tr (y / x)) = false := by cases C.f.tr (y / x) <;> rfl
+        rw [this]
+        simp only [Bool.false_eq_true, if_false]
+        linear_combination hxx + L.char2 x
+    rw [hy]
+
+/-- Compress says ERR_BAD_POINT on an encoded pair exactly for (1, y), tr(y) = 0 -/
+theorem compress_bad_iff (x y : F) :
+    C.compress (C.encXY (x, y)) = (.badPoint, []) ↔ x = 1 ∧ C.f.tr y = false := by
+  constructor
+  · intro h
+    by_cases hx : x = 0
+    · subst hx; rw [compress_zero C L] at h; cases h
+    · by_contra hn
+      have hx1 : x = 1 → C.f.tr (y / x) = true := by
+        intro h1
+        rw [h1, div_one]
+        cases ht : C.f.tr y
+        · exact absurd ⟨h1, ht⟩ hn
+        · rfl
+      rw [compress_nz C L hx y hx1] at h
+      cases h
+  · rintro ⟨h1, hy⟩
+    rw [h1]; exact compress_one_refused C L hy
+
+theorem encXY_inj {p q : F × F} (h : C.encXY p = C.encXY q) : p = q := by
+  unfold Dstu.encXY at h
+  obtain ⟨h1, h2⟩ := List.append_inj h (by rw [encF_length, encF_length])
+  exact Prod.ext (encF_inj C L h1) (encF_inj C L h2)
 
 end forms
 
